@@ -21,7 +21,7 @@ ASSUMPTIONS = [
     "single-threaded: the bytes read right after an answer are the bytes the answer was about",
 ]
 MONITORS = "every (meta, hash) obtained through the state cache or carried over by update() compared with hashlib at the same instant"
-REQUIRED_COUNTERS = ["batched_lookups_of_legacy_rows", "alias_path_queries", "index_update_with_swap_during_md5", "index_md5_on_reused_index", "memfs_batched_queries", "failed_link_checkouts", "failed_create_index_checkouts", "large_file_cases", "index_update_with_reloaded_old_index", "racing_writer_queries", "symlinked_files", "answers_checked", "state_hits_checked", "mutations", "get_vs_get_many_compared", "staging_listings_checked", "index_md5_checked",
+REQUIRED_COUNTERS = ["failed_adds_over_an_existing_path", "failed_create_index_checkouts_with_meta_update", "batched_lookups_of_legacy_rows", "alias_path_queries", "index_update_with_swap_during_md5", "index_md5_on_reused_index", "memfs_batched_queries", "failed_link_checkouts", "failed_create_index_checkouts", "large_file_cases", "index_update_with_reloaded_old_index", "racing_writer_queries", "symlinked_files", "answers_checked", "state_hits_checked", "mutations", "get_vs_get_many_compared", "staging_listings_checked", "index_md5_checked",
                      "index_update_carried_checked", "injected_rows", "memfs_queries", "batch_boundary_cases", "mutations_between_queries", "ext4_cases"]
 
 ALGOS = ["md5", "sha256", "md5-dos2unix", "blake3"]
@@ -276,7 +276,7 @@ def run_shard(ctx):
                         else:
                             cur[p] = new
                     continue
-                q = rng.choice(["hash_file", "hash_file", "get", "get_many", "_get_hashes", "build", "index_md5", "index_update", "inject", "memfs", "racing-writer", "checkout-failed-link", "index-checkout-failed-create", "alias-through-dir-symlink"])
+                q = rng.choice(["hash_file", "hash_file", "get", "get_many", "_get_hashes", "build", "index_md5", "index_update", "inject", "memfs", "racing-writer", "checkout-failed-link", "index-checkout-failed-create", "alias-through-dir-symlink", "add-failed-over-existing-path"])
                 if batch and q in ("build", "index_md5", "index_update"):
                     q = "get_many"
                 hist.append(["query", q, ""])
@@ -561,11 +561,23 @@ def run_shard(ctx):
                         os.chmod(bp_, 0o644)
                         os.unlink(bp_)
                     errs_ = []
+                    um_ = rng.random() < 0.5
                     try:
-                        _iapply(dff, codir, fs, storage="cache", state=state, update_meta=False, onerror=lambda s_, d_, e_: errs_.append(d_),
+                        _iapply(dff, codir, fs, storage="cache", state=state, update_meta=um_, onerror=lambda s_, d_, e_: errs_.append(d_),
                                 links=lk_)
                     except Exception:  # noqa: BLE001  (loud is fine here)
                         errs_.append("raised")
+                    if um_:
+                        # the target index has been refreshed from the workspace (update_meta): an entry that was not created must
+                        # not have been given the metadata of the user's file, or the metadata-based update carries its hash over
+                        res.count("failed_create_index_checkouts_with_meta_update")
+                        newi_ = ibuild(codir, fs)
+                        iupdate(newi_, tgt)
+                        for k_, e_ in newi_.iteritems():
+                            pp_ = os.path.join(codir, *k_)
+                            if e_.hash_info and e_.hash_info.value and os.path.isfile(pp_):
+                                res.count("index_update_carried_checked")
+                                verify(pp_, e_.hash_info.name, e_.hash_info.value, "index.update/after-index-checkout-with-failed-create")
                     if errs_:
                         res.count("failed_create_index_checkouts_reported")
                     for rel in (("a",), ("sub", "b")):
@@ -581,6 +593,34 @@ def run_shard(ctx):
                                                   "in the hash state under the target's hash", case=case, detail={"history": hist[-6:]})
                             else:
                                 verify(pp, "md5", h1.value, "hash_file/after-index-checkout-with-failed-create")
+                elif q == "add-failed-over-existing-path":
+                    # adding an object fails (its source is gone; the caller's error hook is told) while other bytes already sit at the
+                    # object's path in a store that does not check what it holds: no row may vouch for those bytes
+                    res.count("failed_adds_over_an_existing_path")
+                    bodb = env.base_odb(os.path.join(d, f"plain-store-{len(hist)}"), state=state)
+                    want_ = gen.small_content(rng) + b"-wanted"
+                    oid_ = H("md5", want_)
+                    op_ = bodb.oid_to_path(oid_)
+                    os.makedirs(os.path.dirname(op_), exist_ok=True)
+                    with open(op_, "wb") as f:
+                        f.write(gen.small_content(rng) + b"-left-over")
+                    srcs_, oids_ = [os.path.join(d, "no-such-source")], [oid_]
+                    if rng.random() < 0.5:
+                        good_ = gen.small_content(rng) + b"-good"
+                        gp_ = os.path.join(d, f"good-src-{len(hist)}")
+                        with open(gp_, "wb") as f:
+                            f.write(good_)
+                        srcs_.insert(rng.randrange(2), gp_)
+                        oids_.insert(0 if srcs_[0] == gp_ else 1, H("md5", good_))
+                    told_ = []
+                    bodb.add(srcs_, fs, oids_, check_exists=False, on_error=lambda o_, e_: told_.append(o_))
+                    if told_ != [oid_]:
+                        res.violation("failed-add-not-reported", f"add() with a missing source told the error hook {told_}", case=case, detail={"history": hist[-6:]})
+                    for o_ in oids_:
+                        pp_ = bodb.oid_to_path(o_)
+                        if os.path.isfile(pp_):
+                            _m1, h1 = hash_file(pp_, fs, "md5", state=state)
+                            verify(pp_, "md5", h1.value, "hash_file/after-failed-add-over-existing-path")
                 elif q == "alias-through-dir-symlink" and paths and not batch:
                     # `w/lnk/../name` is, for the OS, `<target of lnk>/../name` - not `w/name`; rows saved or looked up through such a
                     # spelling must be about the file the OS resolves it to
